@@ -180,6 +180,10 @@ func genTree(seed uint64, reopen bool, deep bool) *TreePlan {
 			if ts == 0 {
 				ts = drawVal()
 			}
+			if r.IntN(10) == 0 {
+				// the ends of the range: a threshold of 0 removes nothing, one of 2^64-1 everything but that value
+				ts = []uint64{0, 0, 1, math.MaxUint64}[r.IntN(4)]
+			}
 			p.Ops = append(p.Ops, TOp{K: TDeleteBelow, Val: ts})
 			for k, v := range model {
 				if v < ts {
@@ -463,7 +467,7 @@ func runTree(plan *TreePlan, prop string, dir string) (res *RunResult) {
 			if after.NumPagesFree > before.NumPagesFree {
 				t.stats.recycled += after.NumPagesFree - before.NumPagesFree
 			}
-			if len(dead) > 0 {
+			if len(dead) > 0 || op.Val == 0 {
 				t.fullCheck(prop, "after DeleteBelow")
 			}
 		case TIterRead:
